@@ -12,7 +12,7 @@ V = os.path.dirname(os.path.dirname(os.path.abspath(__file__)))
 ENV = dict(os.environ, CARGO_NET_OFFLINE="true")
 # per property: crate, extra interpreter flags, (programs, seeds, batch) for quick / thorough, what runs
 TABLE = {
-    "C14": dict(crate="c14", flags="", quick=(24, 8, 6), thorough=(240, 16, 8)),
+    "C14": dict(crate="c14", flags="", quick=(60, 4, 6), thorough=(360, 12, 8)),
     "C02": dict(crate="c02", flags="", quick=(6, 8, 1), thorough=(6, 64, 1)),
     "C03": dict(crate="c03", flags="", quick=(8, 8, 4), thorough=(8, 64, 4)),
     # crossbeam-epoch: its intrusive list needs Tree Borrows; garbage still awaiting an epoch at exit is not a leak
@@ -70,9 +70,11 @@ def main():
     violation = None
     # build once (not counted against the budget)
     b = subprocess.run(["cargo", "+nightly", "miri", "run", "--offline", "--", "0", "0"], cwd=CRATE, env=dict(ENV, MIRIFLAGS=BASEFLAGS), capture_output=True, text=True)
-    if b.returncode != 0:
+    if b.returncode != 0 and not any(m in b.stderr for m in ("Undefined Behavior", "panicked at", "memory leaked", "Data race", "deadlock")):
         print("HARNESS-ERROR: Miri build failed\n" + b.stderr[-3000:], file=sys.stderr)
         sys.exit(2)
+    # (a failure with one of those markers is the interpreted program failing, not the build: the
+    # exploration below pins it to a (program, interpreter seed) pair)
     p = first
     while p < first + nprog and time.time() - t0 < budget:
         rc, out, err, flags = run(p, batch, (0, nseeds))
